@@ -76,7 +76,7 @@ def respOfRec (r : Rec) : Resp :=
     if r.code == 200 then
       match r.hookResp with
       | some b => .hookOk b
-      | none => .hookErr "decode"
+      | none => if r.hookRaw.trimAscii.toString == "null" then .hookOk .null else .hookErr "decode"
     else if r.code == 429 then .hook429 r.hookRetryAfter
     else .hookErr "status"
   else if r.ok then .obj r.resp else .err r.reason
